@@ -546,3 +546,75 @@ def h_iter(ctx, cfg):
                 ctx.prove("all_code_data.self_first_then_every_descendant", z3.BoolVal(allc and allc[0] is cd and sorted(map(id, allc)) == sorted(map(id, want))),
                           detail="%r %r depth %d: %d vs %d" % (shape, addl, depth, len(allc), len(want)))
                 n += 1
+
+
+# --------------------------------------------------------------------------------------------------
+# C14 by the generic-element rule and structural induction (unbounded)
+
+def _iter_loops_accumulate_only():
+    """side condition of rule 6 for CodeData.__iter__: every loop body only tests the element and yields from it"""
+    src = rewrite.Source.of(code_data)
+    fn = src.get_def("CodeData.__iter__")
+    for node in ast.walk(fn):
+        if isinstance(node, (ast.Assign, ast.AugAssign)) and not (isinstance(node, ast.Assign) and len(node.targets) == 1 and isinstance(node.targets[0], ast.Name)):
+            return False
+        if isinstance(node, (ast.Break, ast.Continue, ast.Return, ast.While, ast.Global, ast.Nonlocal)):
+            return False
+    return any(isinstance(n, ast.Yield) for n in ast.walk(fn))
+
+
+def _register_iter_generic():
+    kinds = ["NoArg", "Name", "Varname", "Cellvar", "Freevar", "Jump", "int", "Constant(scalar)", "Constant(tuple)", "Constant(CodeData)"]
+    for where in ("instruction", "additional_arg"):
+        for kind in kinds:
+            if where == "additional_arg" and kind in ("NoArg", "Freevar", "Jump", "int"):
+                continue
+
+            def h(ctx, cfg, where=where, kind=kind):
+                if not _iter_loops_accumulate_only():
+                    raise rewrite.BindingError("CodeData.__iter__ is no longer a pure yield-only traversal (rule 6 side condition)")
+                child = CodeData(blocks=((Instruction("RETURN_VALUE", line_number=1),),), filename="f", first_line_number=7, name="child", stacksize=1)
+                arg = {"NoArg": NoArg(), "Name": Name("n", 1), "Varname": Varname("v"), "Cellvar": Cellvar("c"), "Freevar": Freevar("f"), "Jump": Jump(0), "int": 3,
+                       "Constant(scalar)": Constant(1), "Constant(tuple)": Constant((1, "a")), "Constant(CodeData)": Constant(child, 2)}[kind]
+                # a generic element in a generic position: other elements are of a kind that never yields (covered by their own case)
+                filler = Instruction("NOP", NoArg(), line_number=1)
+                if where == "instruction":
+                    cd = CodeData(blocks=((filler,), (filler, Instruction("OP", arg, line_number=2), filler)), filename="f", first_line_number=1, name="parent", stacksize=1)
+                else:
+                    cd = CodeData(blocks=((filler,),), filename="f", first_line_number=1, name="parent", stacksize=1, _additional_args=(Name("x", 0), arg))
+                got = list(cd)
+                want = [child] if kind == "Constant(CodeData)" else []
+                ctx.prove("iter.generic_element_yields_iff_it_is_a_nested_code_constant", z3.BoolVal(len(got) == len(want) and all(a is b for a, b in zip(got, want))), detail="%s %s -> %r" % (where, kind, got))
+            harness("iter.generic_element[%s,%s]" % (where, kind), props=["C14"], functions=["code_data.CodeData.__iter__"], configs="any",
+                    assumes=["rule 6 (generic-element rule): __iter__ is a yield-only traversal of blocks x instructions and of the additional args (checked syntactically)"],
+                    notes="a generic element of every operand kind at a generic position: it is yielded iff it is a Constant holding a CodeData - so iteration yields exactly the nested code "
+                          "objects among all operands and additional arguments, for any number of blocks and instructions")(h)
+
+    def h_all(ctx, cfg):
+        src = rewrite.Source.of(code_data)
+        fn = src.get_def("CodeData.all_code_data")
+        log = []
+
+        class Child:
+            def __init__(self, name):
+                self.name = name
+
+            def all_code_data(self):          # induction hypothesis: yields the child and its descendants
+                log.append(self.name)
+                yield ("subtree", self.name)
+        ns = rewrite.compile_defs(code_data, [copy.deepcopy(fn)], {}, "CodeData.all_code_data")
+        f = ns["all_code_data"]
+
+        class Parent:
+            def __iter__(self):
+                return iter([Child("a"), Child("b"), Child("c")])
+        p = Parent()
+        got = list(f(p))
+        ctx.prove("all_code_data.self_first", z3.BoolVal(got and got[0] is p))
+        ctx.prove("all_code_data.then_the_subtree_of_every_child_in_order", z3.BoolVal(got[1:] == [("subtree", "a"), ("subtree", "b"), ("subtree", "c")] and log == ["a", "b", "c"]))
+    harness("iter.all_code_data.inductive_step", props=["C14"], functions=["code_data.CodeData.all_code_data"], configs="any",
+            assumes=["meta-step: structural induction over the nesting depth (the recursive call on a child is the hypothesis)"],
+            notes="modular recursion: all_code_data yields the object itself first and then, for every child that iteration yields, that child's whole subtree")(h_all)
+
+
+_register_iter_generic()
